@@ -124,8 +124,8 @@ def build(rng: random.Random, kind: str):
     if gapped:
         freq = freq.astype("float64")
     kw = {}
-    if kind == "cylindrical_surface":
-        kw["axis_names"] = ["phi", "z"]  # the default names of this class do not fit its two axes (known finding D30)
+    if kind == "cylindrical_surface" and rng.random() < 0.5:
+        kw["axis_names"] = ["phi", "z"]
     if len(bins) == 1:
         h = cls(bins[0], freq, **kw)
     else:
